@@ -16,7 +16,7 @@ def judge(req, obs):
 def run(ctx):
     res = Result("model_checking")
     res.rule = ("E1: every single deviation (full fault alphabet per request kind + hook exits) at every choice point of an "
-                "issuance, x {no pair, existing pair} x kp_reuse, plus existing pairs whose key file the daemon cannot load (foreign curve, truncated, empty; kp_reuse on); thorough adds bound 2 over a reduced alphabet and bound 3 "
+                "issuance, x {no pair, existing pair} x kp_reuse, plus existing pairs whose key file the daemon cannot load (foreign curve, truncated, empty; kp_reuse on), plus two consecutive attempts of one daemon process (a fault in either); thorough adds bound 2 over a reduced alphabet and bound 3 "
                 "over {badNonce, cut}. An outcome is the attempt result + file-state class; a state is (variant, deviations so far, position).")
     plans = [("full", [e1.FULL], 1)]
     if not ctx.quick:
@@ -26,10 +26,17 @@ def run(ctx):
         from .. import cfg
         idsets.append([cfg.ident("a.example"), cfg.ident("b.example", "dns-01")])
     bounds = {}
+    # (pair, kp_reuse, attempts): the two-attempt variants let a fault in one attempt be followed by another attempt of the same
+    # daemon process (state carried from a failed attempt into the next one), with short-lived certificates so that a success is renewed at once
+    variants = [(p, k, 1) for p, k in VARIANTS + ([] if ctx.quick else THOROUGH_VARIANTS)]
+    variants += [("none", False, 2), ("existing", True, 2)] + ([] if ctx.quick else [("none", True, 2), ("existing", False, 2)])
     for ids in idsets:
-        for pair, kp in VARIANTS + ([] if ctx.quick else THOROUGH_VARIANTS):
-            req = flows.issuance_request(pair=pair, kp_reuse=kp, identifiers=ids)
-            variant = "pair=%s|kp_reuse=%s|n_id=%d" % (pair, kp, len(ids or [1]))
+        for pair, kp, natt in variants:
+            if natt > 1 and ids is not None:
+                continue
+            req = flows.issuance_request(pair=pair, kp_reuse=kp, identifiers=ids, attempts=natt, ca_cfg={"cert_lifetime_s": 10 * 86400} if natt > 1 else None)
+            variant = "pair=%s|kp_reuse=%s|n_id=%d%s" % (pair, kp, len(ids or [1]), "|attempts=%d" % natt if natt > 1 else "")
+            req["meta"]["variant_suffix"] = "|attempts=%d" % natt if natt > 1 else ""
             ncp = flows.determinism_selftest(ctx.pool, req)
             for name, alpha, bound in plans:
                 if ids is not None and name != "full":
